@@ -5,7 +5,16 @@ Every stored array is filled with a unique odd integer constant (its dataId), ev
 calibration has the unique gradient 2**calId (calId 0 = default `Calibration()`), so a value read
 from the laser decodes exactly to (dataId, calId): v = dataId / 2**calId.
 
-Only successful operations are generated (the property speaks of successful operations only).
+Three kinds of cases:
+* "tree" / "seq": successful operations only, compared with the content-level mechanism (`step`) and the
+  dictionary specification (`Spec.step`) - the exhaustive enumeration lives here;
+* "obj": histories run on the OBJECT-LEVEL model (`hstep` on a heap of array cells, Calibration / Config /
+  dict objects): besides the contents, the model predicts which objects are the same and which arrays share
+  memory (stored calibrations vs. the caller's, stored arrays vs. the caller's, every returned array vs. the
+  stored ones), the exception class of failing calls and the state they leave behind, what edits of the
+  caller's objects and in-place writes through returned views change.  Steps the property speaks about
+  (successful add/remove/rename/get, edits of what was given at construction) are also compared with the
+  dictionary specification; the others with the model only.
 Order of the element tuple / calibration dict is not part of the property and is not compared.
 """
 import itertools
@@ -176,27 +185,42 @@ def make_config(srr, cfg):
     if cfg == 0:
         return None
     if srr:
-        return SRRConfig(spotsize=10.0, speed=40.0, scantime=0.25, warmup=0.0)
-    return Config(spotsize=10.0, speed=40.0, scantime=0.25)
+        return SRRConfig(spotsize=10.0 * cfg, speed=40.0 * cfg, scantime=0.25, warmup=0.0)
+    return Config(spotsize=10.0 * cfg, speed=40.0 * cfg, scantime=0.25)
 
 
-def cfg_sig(c):
+def cfg_sig(c, offsets=True):
     from pewlib.srr import SRRConfig
 
     t = (type(c).__name__, float(c.spotsize), float(c.speed), float(c.scantime))
     if isinstance(c, SRRConfig):
-        t += (float(c.warmup), np.asarray(c.subpixel_offsets).tolist())
+        t += (float(c.warmup),)
+        if offsets:
+            t += (np.asarray(c.subpixel_offsets).tolist(),)
     return t
+
+
+# content tokens of an SRRConfig's `_subpixel_offsets` array: 0 = as constructed, 1 = written in place, 2 = rebound by the setter
+OFFS = {0: [0, 1], 1: [1, 0], 2: [0, 1, 2]}
+
+
+def decode_offs(c):
+    v = [int(x) for x in np.asarray(c._subpixel_offsets).tolist()]
+    for t, want in OFFS.items():
+        if v == want:
+            return t
+    return f"unknown:{v!r}"
 
 
 def decode_cfg(c, srr):
     from pewlib import Config
     from pewlib.srr import SRRConfig
 
-    sig = cfg_sig(c)
-    if sig == cfg_sig(make_config(srr, 1)):
-        return 1
-    if sig == cfg_sig(SRRConfig() if srr else Config()):
+    sig = cfg_sig(c, offsets=False)
+    for t in range(1, 40):
+        if sig == cfg_sig(make_config(srr, t), offsets=False):
+            return t
+    if sig == cfg_sig(SRRConfig() if srr else Config(), offsets=False):
         return 0
     return f"unknown:{sig!r}"
 
@@ -332,6 +356,7 @@ class World:
             "n_cal": len(las.calibration),
             "shape": [int(x) for x in las.shape],
             "cfg": decode_cfg(las.config, self.srr),
+            "offs": decode_offs(las.config) if self.srr else None,
             "data": data,
         }
 
@@ -449,11 +474,15 @@ def merge_reads(parts):
     return out
 
 
-def canon_side(o, plan, which):
-    """canonical observation of the driver's mechanism (`model`) or specification (`spec`) reply"""
+def canon_side(o, plan, which, offs="auto"):
+    """canonical observation of the driver's mechanism (`model`) or specification (`spec`) reply.
+    offs: content token of the config's offsets array (SRR; the content level has no such thing: it is the
+    constructor's value 0 there), None for Laser"""
     if o is None:
         return {"raises": which}
     nl = len(o["sizes"])
+    if offs == "auto":
+        offs = 0 if len(o["shape"]) == 3 and nl > 1 else None
     if which == "model":
         layers = [dict((n, i) for n, i in l) for l in o["layers"]]
         elements = list(o["elements"])
@@ -461,13 +490,14 @@ def canon_side(o, plan, which):
         cal = {n: c for n, c in o["cal"]}
         st = {"elements": sorted(elements), "n_elements": len(elements),
               "layer_names": [sorted(l) for l in layers],
-              "cal": cal, "n_cal": len(o["cal"]), "shape": o["shape"], "cfg": o["cfg"], "data": data}
+              "cal": cal, "n_cal": len(o["cal"]), "shape": o["shape"], "cfg": o["cfg"],
+              "offs": offs, "data": data}
     else:
         elements = list(o["elements"])
         st = {"elements": sorted(elements), "n_elements": len(elements),
               "layer_names": [sorted(elements)] * nl,
               "cal": {n: c for n, _, c in o["map"]}, "n_cal": len(o["map"]), "shape": o["shape"], "cfg": o["cfg"],
-              "data": {n: ds for n, ds, _ in o["map"]}}
+              "offs": offs, "data": {n: ds for n, ds, _ in o["map"]}}
     reads, sizes = {}, {}
     for label, idx, kw, _, sized in plan:
         reads[label] = merge_reads([readout(o["reads"][i]) for i in idx])
@@ -483,7 +513,8 @@ def driver_req(kind, start, ops, mreads, last_only):
     for op in ops:
         k = op["op"]
         if k == "add":
-            dops.append({"op": "add", "name": op["name"], "data": op["data"], "cal": op["cal"]})
+            dops.append({"op": "add", "name": op["name"], "cal": op["cal"],
+                         "data": [[layer_shape(start, li), i] for li, i in enumerate(op["data"])]})
         elif k == "remove":
             dops.append({"op": "remove", "names": op["names"]})
         elif k == "rename":
@@ -505,6 +536,294 @@ def default_start(kind, names=("A", "B")):
             "given": [[names[0], 1]] if names else None, "cfg": 1}
 
 
+# ----------------------------------------------------------------------------- object-level cases ("obj" mode)
+LASER_OPS = ("add", "remove", "rename", "get")
+FOREIGN_EDITS = ("edit_cal", "edit_dict", "edit_cfg", "set_offsets")
+
+
+def make_cal_obj(cid):
+    from pewlib import Calibration
+
+    return Calibration() if cid == 0 else make_cal(cid)
+
+
+def mutate_cal(c, cid):
+    """the holder of Calibration object `c` turns it into content `cid`: attributes are assigned, the points array
+    is written in place when it has the shape of the new one"""
+    new = make_cal_obj(cid)
+    c.gradient, c.intercept, c.unit = new.gradient, new.intercept, new.unit
+    if c._points.shape == new._points.shape:
+        c._points[...] = new._points
+    else:
+        c._points = new._points.copy()
+
+
+def same_cal(a, b):
+    """one object, or two objects sharing an array"""
+    return a is b or bool(np.shares_memory(a._points, b._points)) or bool(np.shares_memory(a._weights, b._weights))
+
+
+def columns(a):
+    """the columns of an array: its fields, or itself"""
+    if a.dtype.names is None:
+        return [a]
+    return [a[n] for n in a.dtype.names]
+
+
+class ObjWorld:
+    """the real laser and everything the caller created: arrays, Calibration objects, dicts, configs - in creation order"""
+
+    def __init__(self, kind, start, tmp):
+        from pewlib import Laser
+        from pewlib.srr import SRRLaser
+        from pewlib.io import npz
+
+        self.kind, self.start = kind, start
+        self.srr = kind.startswith("srr")
+        self.reg = {}
+        names, dts = start["names"], start["dtypes"]
+        self.arrs = []
+        for li, ids in enumerate(start["ids"]):
+            sh = layer_shape(start, li)
+            arr = np.empty(sh, dtype=[(n, d) for n, d in zip(names, dts)])
+            for n, d, i in zip(names, dts, ids):
+                arr[n] = i
+                self.reg[i] = (d, sh)
+            self.arrs.append(arr)
+        layers = list(self.arrs)
+        self.cals = [make_cal_obj(c) for c in start["cal_objs"]]
+        self.ncal = max(list(start["cal_objs"]) + [0]) + 1
+        self.dicts, self.cfgs = [], []
+        given = None
+        if start["given"] is not None:
+            if len({n for n, _ in start["given"]}) != len(start["given"]):
+                raise InternalError("a Python dict cannot be given the same key twice")
+            given = {n: self.cals[j] for n, j in start["given"]}
+            self.dicts.append(given)
+        config = make_config(self.srr, start["cfg"])
+        if config is not None:
+            self.cfgs.append(config)
+        if self.srr:
+            laser = SRRLaser(layers, calibration=given, config=config)
+        else:
+            laser = Laser(layers[0], calibration=given, config=config)
+        if kind.endswith("_npz"):
+            path = tmp / "laser.npz"
+            npz.save(path, laser)
+            # the saved laser lives on at the caller's side
+            self.cals += list(laser.calibration.values())
+            self.dicts.append(laser.calibration)
+            self.cfgs.append(laser.config)
+            laser = npz.load(path)
+        self.laser = laser
+        self.offs_written = False
+
+    def layers(self):
+        return list(self.laser.data) if self.srr else [self.laser.data]
+
+    decode_data = World.decode_data
+    state = World.state
+
+    def apply(self, op):
+        """-> name of the exception class the call raised, or None"""
+        k = op["op"]
+        try:
+            if k == "add":
+                if not self.srr and len(op["data"]) != 1:
+                    raise InternalError("Laser.add takes one array")
+                shapes = op.get("shapes") or [layer_shape(self.start, li) for li in range(len(op["data"]))]
+                arrs = []
+                for li, i in enumerate(op["data"]):
+                    self.reg[i] = (op["dtype"], layer_shape(self.start, li))
+                    a = np.full(shapes[li], i, dtype=op["dtype"])
+                    arrs.append(a)
+                    self.arrs.append(a)
+                c = op["cal"]
+                if c is None:
+                    cal = None
+                elif "obj" in c:
+                    cal = self.cals[c["obj"]]
+                else:
+                    cal = make_cal_obj(c["new"])
+                    self.cals.append(cal)
+                    self.ncal = max(self.ncal, c["new"] + 1)
+                self.laser.add(op["name"], arrs if self.srr else arrs[0], cal)
+            elif k == "remove":
+                self.laser.remove(op["names"][0] if op.get("as_str") and len(op["names"]) == 1 else list(op["names"]))
+            elif k == "rename":
+                self.laser.rename({o: n for o, n in op["map"]})
+            elif k == "get":
+                self.laser.get(op["target"], calibrate=op["calibrate"], **({"layer": op["layer"]} if self.srr else {}))
+            elif k == "edit_cal":
+                self.ncal = max(self.ncal, op["content"] + 1)
+                mutate_cal(self.cals[op["obj"]], op["content"])
+            elif k == "edit_dict":
+                g = self.dicts[op["obj"]]
+                g.clear()
+                g.update({n: self.cals[j] for n, j in op["entries"]})
+            elif k == "edit_cfg":
+                cfg, new = self.cfgs[op["obj"]], make_config(self.srr, op["content"])
+                cfg.spotsize, cfg.speed, cfg.scantime = new.spotsize, new.speed, new.scantime
+            elif k == "set_offsets":
+                self.cfgs[op["obj"]].subpixel_offsets = [[0, 3], [1, 3], [2, 3]]
+            elif k == "write_offsets":
+                self.cfgs[op["obj"]]._subpixel_offsets[...] = OFFS[1]
+                self.offs_written = True
+            elif k == "write_arr":
+                col = columns(self.arrs[op["arr"]])[op["col"]]
+                self.reg.setdefault(op["content"], (col.dtype.str, list(col.shape)))
+                col[...] = op["content"]
+            elif k == "write_result":
+                res = self.laser.get(op["target"], calibrate=op["calibrate"], **({"layer": op["layer"]} if self.srr else {}))
+                for col in columns(res):
+                    self.reg.setdefault(op["content"], (col.dtype.str, list(col.shape)))
+                    col[...] = op["content"]
+            else:
+                raise InternalError(f"bad op {op}")
+        except InternalError:
+            raise
+        except Exception as e:
+            return type(e).__name__
+        return None
+
+    def alias(self):
+        las = self.laser
+        out = {
+            "cal_owner": {str(n): [j for j, c in enumerate(self.cals) if same_cal(v, c)] for n, v in las.calibration.items()},
+            "cal_groups": sorted(sorted(str(m) for m, u in las.calibration.items() if u is v) for v in
+                                 {id(v): v for v in las.calibration.values()}.values()),
+            "dict_is": [j for j, d in enumerate(self.dicts) if las.calibration is d],
+            "cfg_is": [j for j, c in enumerate(self.cfgs) if las.config is c],
+            "offs_shared": [j for j, c in enumerate(self.cfgs) if self.srr and
+                            bool(np.shares_memory(las.config._subpixel_offsets, c._subpixel_offsets))],
+            "data_shares": {},
+        }
+        caller_cols = [(k, ci, col) for k, a in enumerate(self.arrs) for ci, col in enumerate(columns(a))]
+        for li, l in enumerate(self.layers()):
+            for n in (l.dtype.names or ()):
+                out["data_shares"][f"L{li}|{n}"] = [[k, ci] for k, ci, col in caller_cols if bool(np.shares_memory(l[n], col))]
+        return out
+
+    def read_shares(self, res, target):
+        """which stored columns the returned array shares memory with, per column of the result"""
+        if isinstance(res, dict):
+            return res
+        cols = {target: res} if target is not None else {str(n): res[n] for n in (res.dtype.names or ())}
+        out = []
+        for li, l in enumerate(self.layers()):
+            for n in (l.dtype.names or ()):
+                for rn, col in cols.items():
+                    if bool(np.shares_memory(col, l[n])):
+                        out.append([rn, f"L{li}|{n}"])
+        return sorted(out)
+
+
+def model_alias(rep):
+    """the same relations, predicted from the identities of the object-level model"""
+    cal_ids = {n: i for n, i in rep["cal_ids"]}
+    ids = sorted(set(cal_ids.values()))
+    out = {
+        "cal_owner": {n: [j for j, c in enumerate(rep["caller_cals"]) if c == i] for n, i in cal_ids.items()},
+        "cal_groups": sorted(sorted(n for n, i in cal_ids.items() if i == x) for x in ids),
+        "dict_is": [j for j, d in enumerate(rep["caller_dicts"]) if d == rep["dict_id"]],
+        "cfg_is": [j for j, c in enumerate(rep["caller_cfgs"]) if c == rep["cfg_id"]],
+        "offs_shared": [j for j, o in enumerate(rep["caller_cfg_offs"]) if o is not None and o == rep["cfg_offs"]],
+        "data_shares": {},
+    }
+    for li, l in enumerate(rep["layer_cells"]):
+        for n, cell in l:
+            out["data_shares"][f"L{li}|{n}"] = [[k, ci] for k, cells in enumerate(rep["caller_arrs"])
+                                                for ci, c in enumerate(cells) if c == cell]
+    return out
+
+
+def alias_le(im, mo):
+    """the implementation shares no more than the model: every identity / common-memory relation it shows is one the
+    model predicts (it may copy more than the model says, never less)"""
+    sub = lambda a, b: all(x in b for x in a)
+    if set(im["cal_owner"]) != set(mo["cal_owner"]) or set(im["data_shares"]) != set(mo["data_shares"]):
+        return False
+    if not all(sub(im["cal_owner"][n], mo["cal_owner"][n]) for n in im["cal_owner"]):
+        return False
+    if not all(sub(im["data_shares"][k], mo["data_shares"][k]) for k in im["data_shares"]):
+        return False
+    if not all(sub(im[k], mo[k]) for k in ("dict_is", "cfg_is", "offs_shared")):
+        return False
+    # names sharing one Calibration object in the implementation share one in the model
+    return all(any(set(g) <= set(h) for h in mo["cal_groups"]) for g in im["cal_groups"])
+
+
+def shares_le(im, mo):
+    if set(im) != set(mo):
+        return False
+    for label in im:
+        a, b = im[label], mo[label]
+        if isinstance(a, dict) or isinstance(b, dict):
+            if a != b:
+                return False
+        elif not all(x in b for x in a):
+            return False
+    return True
+
+
+def model_read_shares(rep, r):
+    if "raises" in r:
+        return {"raises": r["raises"]}
+    out = []
+    for li, l in enumerate(rep["layer_cells"]):
+        for n, cell in l:
+            for rn, rc in r["cells"]:
+                if rc == cell:
+                    out.append([rn, f"L{li}|{n}"])
+    return sorted(out)
+
+
+def obj_req(kind, start, ops, mreads):
+    layers = [{"shape": layer_shape(start, li), "fields": [[n, i] for n, i in zip(start["names"], ids)]}
+              for li, ids in enumerate(start["ids"])]
+    dops = []
+    for op in ops:
+        if op["op"] == "add":
+            shapes = op.get("shapes") or [layer_shape(start, li) for li in range(len(op["data"]))]
+            dops.append({"op": "add", "name": op["name"], "cal": op["cal"], "data": [[sh, i] for sh, i in zip(shapes, op["data"])]})
+        elif op["op"] == "remove":
+            dops.append({"op": "remove", "names": op["names"]})
+        else:
+            dops.append(op)
+    return dict(srr=kind.startswith("srr"), layers=layers, cal_objs=start["cal_objs"], given=start["given"],
+                cfg=start["cfg"] if start["cfg"] else None, offs=0, roundtrip=kind.endswith("_npz"), ops=dops, reads=mreads)
+
+
+def obj_do_reads(world, plan):
+    """every get() variant of the plan: decoded values, sizes, and which stored columns the result shares memory with"""
+    las, srr, start = world.laser, world.srr, world.start
+    pix = 10.0 if start["cfg"] == 1 else 35.0
+    reads, sizes, shares = {}, {}, {}
+    for label, _, kw, drop_fill, sized in plan:
+        args = {"calibrate": kw["cal"]}
+        if srr:
+            args["layer"] = kw["layer"]
+        if kw["ext"]:
+            sh = layer_shape(start, kw["layer"])
+            if srr and kw["layer"] % 2 == 1:
+                sh = sh[::-1]
+            args["extent"] = (0.0, pix * max(1, sh[1] - 1), 0.0, pix * max(1, sh[0] - 1))
+        try:
+            res = las.get(kw["target"], **args)
+            reads[label] = decode_result(res, kw["target"], drop_fill)
+            if sized:
+                sizes[label] = int(res.size)
+            if kw["layer"] is not None:
+                shares[label] = world.read_shares(res, kw["target"])
+        except InternalError:
+            raise
+        except Exception as e:  # whatever it is: a verdict (the model names the class it expects), never an internal error
+            reads[label] = {"raises": type(e).__name__}
+            if kw["layer"] is not None:
+                shares[label] = {"raises": type(e).__name__}
+    return reads, sizes, shares
+
+
 # ----------------------------------------------------------------------------- the property
 class C07(Prop):
     id = "C07"
@@ -513,15 +832,33 @@ class C07(Prop):
     rule = ("targeted: every successful add/remove/rename sequence up to length 3 over {A,B,C,D} from Laser, SRRLaser and both "
             "after npz save/load (16368 sequences each; thorough: over 5 names, 76695 each, plus all 578786 length-4 sequences "
             "over 4 names from Laser and SRRLaser and a quarter of them, by prefix, after npz save/load), grouped into trees "
-            "by prefix; all get() variants are read at every node, a reduced set at the deepest leaves; generated: "
-            "random successful sequences up to length 25 (adds, single/multi removes, renames incl. swaps, cycles, chains onto "
-            "freed names, identity pairs, explicit get() calls, caller edits of the constructor arguments) with all get() variants "
-            "observed after every step; non-trivial = at least one state-changing operation; distinct by canonical case hash")
+            "by prefix; all get() variants are read at every node, a reduced set at the deepest leaves; object-level probes on "
+            "every kind of laser (constructor copies, add by reference, views and copies, write-through, shared offsets array, "
+            "one Calibration under two keys, stray calibration keys, every failing call); generated: random histories up to "
+            "length 25 - 40 % successful sequences against the content-level model, 60 % object-level histories (adds with "
+            "no / a new / an already known Calibration object, removes, renames incl. swaps, cycles, chains, reads, edits of the "
+            "caller's Calibration / dict / config objects, in-place writes into the caller's arrays and through returned arrays, "
+            "rebinding and in-place writes of the offsets array, failing calls of every kind, constructor dicts with a stray "
+            "key or one object under two keys) with state, all get() variants, identities and memory sharing observed after "
+            "every step; non-trivial = at least one state-changing operation; distinct by canonical case hash")
     trusted = ["decoding of observed values: every array is a unique odd constant d, every non-default calibration has gradient "
                "2**k, so a read value is exactly d/2**k in float32 and float64",
                "numpy.lib.recfunctions.drop_fields / rename_fields and structured-dtype construction behave as read from NumPy 2.x "
-               "(duplicate field names raise ValueError)"]
-    assumptions = ["only successful operations are generated and compared; what a raising operation leaves behind is not part of the property",
+               "(duplicate field names raise ValueError; drop_fields builds new memory, rename_fields returns a view)",
+               "identities are observed with `is` (Calibration, dict, config objects) and numpy.shares_memory (arrays, the "
+               "points/weights arrays of calibrations, the offsets array of SRR configs)"]
+    assumptions = ["inside the property's scope (successful add/remove/rename/get, edits of the objects given at construction) "
+                   "the observations are compared with the dictionary specification; failing calls, in-place writes into array "
+                   "memory or the offsets array, edits of a Calibration handed to add(), and lasers constructed with a stray "
+                   "calibration key are outside it: there the implementation is compared with the Lean mechanism only",
+                   "identities: the implementation may share less than the object-level model says (copy more) - the check "
+                   "demands only that it never shares MORE (wherever the model says two objects are separate / two arrays have no "
+                   "common memory the implementation agrees); contents, exception classes and read values are compared exactly",
+                   "a call that fails after doing part of its work, and a write outside the property's scope, may leave each part "
+                   "of the laser (arrays, calibrations, configuration) as the model says or as it was before; when the "
+                   "implementation did less than the model the history is not followed further",
+                   "on a laser with a stray calibration key, rename() onto / from that key and add() of that name are not "
+                   "followed (the outcome depends on how the dict is rebuilt, the property starts from well-formed lasers)",
                    "order of the element tuple and of the calibration dict is not compared (the property speaks of sets)",
                    "SRR reads with layer=None (reconstruction) are compared as the set of non-fill values per element; "
                    "sizes of extent-trimmed reads are C10's subject and are not compared"]
@@ -562,6 +899,7 @@ class C07(Prop):
                 {"op": "remove", "names": ["B", "A", "C"]},
                 {"op": "add", "name": "D", "data": [d0 + 2 * nl + 2 * i for i in range(nl)], "dtype": "<f8", "cal": 0},
             ]}
+        yield from self.targeted_obj()
         if tier == "quick":
             yield from self.trees(a4, 3)
         else:
@@ -591,6 +929,89 @@ class C07(Prop):
         yield from self.trees(["A", "B", "C", "D"], 3)
 
     def generate(self, rng, tier):
+        if rng.random() < 0.6:
+            return self.gen_obj(rng, tier)
+        return self.gen_seq(rng, tier)
+
+    def targeted_obj(self):
+        """the object-level facts, one probe each, on every kind of laser"""
+        for kind in KINDS:
+            srr, npz = kind.startswith("srr"), kind.endswith("_npz")
+            nl = 2 if srr else 1
+            st = default_start(kind, ("A", "B", "C"))
+            st["cal_objs"] = [1, 3, 0]
+            st["given"] = [["C", 0], ["A", 1]]
+            d0 = max(i for l in st["ids"] for i in l) + 2
+            data = lambda k: [d0 + 2 * (k * nl + i) for i in range(nl)]
+            sh = [layer_shape(st, li) for li in range(nl)]
+            wrong = [[sh[0][0] + 1, sh[0][1]]] + sh[1:]
+            base = {"mode": "obj", "kind": kind, "start": st}
+            # constructor copies: edits of everything the caller holds; add stores the caller's Calibration itself
+            yield {**base, "ops": [
+                {"op": "edit_cal", "obj": 0, "content": 5}, {"op": "edit_cal", "obj": 1, "content": 7},
+                {"op": "edit_dict", "obj": 0, "entries": [["B", 2], ["Zz", 0]]},
+                {"op": "edit_cfg", "obj": 0, "content": 4},
+                {"op": "rename", "map": [["A", "B"], ["B", "A"]]},
+                {"op": "add", "name": "D", "data": data(0), "dtype": "<f4", "cal": {"obj": 0}},
+                {"op": "add", "name": "E", "data": data(1), "dtype": "<f8", "cal": {"new": 9}},
+                {"op": "add", "name": "F", "data": data(2), "dtype": "<f8", "cal": None},
+                {"op": "edit_cal", "obj": 0, "content": 11},
+                {"op": "edit_cal", "obj": 3 + (3 if npz else 0), "content": 13},
+                {"op": "remove", "names": ["D", "C"]},
+                {"op": "edit_cal", "obj": 0, "content": 15}]}
+            # reads: views and copies; writing through what was returned; the caller writing into its own arrays
+            yield {**base, "ops": [
+                {"op": "write_result", "layer": 0, "target": "B", "calibrate": False, "content": d0},
+                {"op": "write_result", "layer": 0, "target": "B", "calibrate": True, "content": d0 + 2},
+                {"op": "write_result", "layer": 0, "target": "A", "calibrate": True, "content": d0 + 4},
+                {"op": "write_result", "layer": nl - 1, "target": None, "calibrate": False, "content": d0 + 6},
+                {"op": "write_result", "layer": 0, "target": None, "calibrate": True, "content": d0 + 8},
+                {"op": "write_arr", "arr": 0, "col": 2, "content": d0 + 10},
+                {"op": "rename", "map": [["C", "D"]]},
+                {"op": "write_arr", "arr": 0, "col": 2, "content": d0 + 12},
+                {"op": "add", "name": "E", "data": [d0 + 14 + 2 * i for i in range(nl)], "dtype": "<f8", "cal": None},
+                {"op": "write_arr", "arr": 0, "col": 0, "content": d0 + 30},
+                {"op": "write_arr", "arr": nl, "col": 0, "content": d0 + 32}]}
+            if srr:  # copy.copy(config) shares the offsets array: the setter rebinds, an in-place write is seen by the laser
+                yield {**base, "ops": [{"op": "write_offsets", "obj": 0, "content": 1},
+                                       {"op": "set_offsets", "obj": 0, "content": 2}, {"op": "edit_cfg", "obj": 0, "content": 3}]}
+                yield {**base, "ops": [{"op": "set_offsets", "obj": 0, "content": 2}, {"op": "rename", "map": [["A", "Q"]]}]}
+            # one Calibration object under two keys (deepcopy copies it once); a stray key and what becomes of it
+            st2 = {**st, "given": [["A", 0], ["B", 0], ["C", 1]]}
+            yield {"mode": "obj", "kind": kind, "start": st2, "ops": [{"op": "edit_cal", "obj": 0, "content": 5},
+                                                                         {"op": "rename", "map": [["A", "C"], ["C", "A"]]}]}
+            for tail in ([{"op": "remove", "names": ["Zz"], "as_str": True}],
+                         [{"op": "rename", "map": [["A", "Zz"]]}, {"op": "remove", "names": ["Zz"]}],
+                         [{"op": "rename", "map": [["Zz", "Q"]]}, {"op": "add", "name": "Q", "data": data(0), "dtype": "<f8", "cal": None}],
+                         [{"op": "add", "name": "Zz", "data": data(0), "dtype": "<f8", "cal": {"new": 9}}],
+                         [{"op": "remove", "names": ["A", "B", "C"]}]):
+                yield {"mode": "obj", "kind": kind, "start": {**st, "given": [["Zz", 0], ["A", 1]]}, "ops": tail}
+            # failing calls: the exception and what is left
+            fails = [
+                {"op": "add", "name": "A", "data": data(0), "dtype": "<f8", "cal": None},
+                {"op": "add", "name": "D", "data": data(0), "dtype": "<f8", "cal": None, "shapes": wrong},
+                {"op": "add", "name": "A", "data": data(0), "dtype": "<f8", "cal": None, "shapes": wrong},
+                {"op": "remove", "names": ["D"]}, {"op": "remove", "names": ["D"], "as_str": True},
+                {"op": "remove", "names": ["A", "D"]}, {"op": "remove", "names": ["D", "A"]},
+                {"op": "remove", "names": ["A", "A"]}, {"op": "remove", "names": ["B", "A", "B"]},
+                {"op": "rename", "map": [["A", "B"]]}, {"op": "rename", "map": [["A", "D"], ["B", "D"]]},
+                {"op": "rename", "map": [["A", "B"], ["B", "C"]]},
+                {"op": "get", "layer": 0, "target": "D", "calibrate": False},
+                {"op": "get", "layer": 0, "target": "D", "calibrate": True}]
+            if srr:
+                later = sh[:1] + [[sh[1][0], sh[1][1] + 1]] + sh[2:]
+                fails += [
+                    {"op": "add", "name": "D", "data": data(0), "dtype": "<f8", "cal": None, "shapes": later},
+                    {"op": "add", "name": "A", "data": data(0), "dtype": "<f8", "cal": None, "shapes": later},
+                    {"op": "add", "name": "D", "data": data(0)[:1], "dtype": "<f8", "cal": None, "shapes": sh[:1]},
+                    {"op": "add", "name": "D", "data": data(0) + [d0 + 40], "dtype": "<f8", "cal": None, "shapes": sh + sh[:1]},
+                    {"op": "get", "layer": nl, "target": "A", "calibrate": False},
+                    {"op": "get", "layer": nl + 3, "target": None, "calibrate": True}]
+            for f in fails:
+                yield {**base, "ops": [{"op": "rename", "map": [["B", "C"], ["C", "B"]]}, f,
+                                       {"op": "rename", "map": [["A", "B"], ["B", "A"]]}, {"op": "remove", "names": ["C"]}]}
+
+    def gen_seq(self, rng, tier):
         kind = rng.choice(KINDS)
         srr = kind.startswith("srr")
         pool = rng.choice([["A", "B", "C", "D", "E", "F"], ["Mg24", "P31", "Fe56", "Fe57", "Zn66", "Gd157"],
@@ -761,6 +1182,8 @@ class C07(Prop):
         kind, start = case["kind"], case["start"]
         tmp = ctx.tmpdir() if kind.endswith("_npz") else None
         feats = {f"kind:{kind}"}
+        if case["mode"] == "obj":
+            return self.eval_obj(case, ctx, tmp)
         if case["mode"] == "seq":
             ops = case["ops"]
             steps, plans, reqs, presents = self.plan_sequence(kind, start, ops, True, False)
@@ -805,6 +1228,394 @@ class C07(Prop):
         summary = {"sequences": len(todo), "all_agree": True}
         return outcome(summary, summary, summary, features=feats)
 
+    # ---- object-level histories
+    @staticmethod
+    def obj_scope(start, ops, errs, n_construction_cals):
+        """index of the first operation the property does not speak about (len(ops) if there is none): a failing call,
+        an in-place write into array memory or the offsets array, an edit of a Calibration that was created for or
+        handed to add()."""
+        passed = set()
+        for i, op in enumerate(ops):
+            k = op["op"]
+            if errs[i] is not None:
+                return i
+            if k in LASER_OPS:
+                if k == "add" and op["cal"] is not None and "obj" in op["cal"]:
+                    passed.add(op["cal"]["obj"])
+                continue
+            if k == "edit_cal" and op["obj"] < n_construction_cals and op["obj"] not in passed:
+                continue
+            if k == "edit_dict" and all(j not in passed and j < n_construction_cals for _, j in op["entries"]):
+                continue
+            if k in ("edit_cfg", "set_offsets"):
+                continue
+            return i
+        return len(ops)
+
+    def eval_obj(self, case, ctx, tmp):
+        kind, start, ops = case["kind"], case["start"], list(case["ops"])
+        srr, nl = kind.startswith("srr"), len(start["ids"])
+        feats = {f"kind:{kind}", "object-level"}
+        # phase 1: the model alone - which calls fail, which failing call leaves a changed state, the elements per step
+        full = ctx.driver.call("c07.heap", runs=[obj_req(kind, start, ops, [])])["runs"][0]
+        errs, unchanged, sim = full["errs"], full["unchanged"], full["sim"]
+        stop = len(ops)
+        for i, e in enumerate(errs):
+            if e is not None and not unchanged[i]:
+                stop = i + 1  # a call that fails half way: observed, nothing after it
+                break
+        ops, errs, unchanged, sim = ops[:stop], errs[:stop], unchanged[:stop], sim[:stop]
+        pre = ctx.driver.call("c07.heap", runs=[obj_req(kind, start, ops[:i], []) for i in range(len(ops) + 1)])["runs"]
+        # a laser with calibration keys that name no element (a stray key given to the constructor) is outside the
+        # property; what rename() onto / from such a key and add() of such a name make of it depends on how the dict is
+        # rebuilt, not on anything the property says: such a call is not followed (remove() of the key, reads and calls
+        # on other names are)
+        for i, op in enumerate(ops):
+            m = pre[i]["model"]
+            stray = {k for k, _ in m["cal"]} - set(m["elements"])
+            touched = set()
+            if op["op"] == "rename":
+                touched = {x for pair in op["map"] for x in pair}
+            elif op["op"] == "add":
+                touched = {op["name"]}
+            if stray & touched:
+                ops, errs, unchanged, sim, pre = ops[:i], errs[:i], unchanged[:i], sim[:i], pre[:i + 1]
+                feats.add("stray-key:call-not-followed")
+                break
+        if not pre[0]["construct_ok"] or not pre[0]["sep_start"] or pre[0]["inv_start"] != pre[0]["given_ok"]:
+            raise InternalError(f"driver: constructor theorems contradicted: {case}")
+        in_scope0 = bool(pre[0]["given_ok"])
+        n_con = len(pre[0]["caller_cals"])
+        scope = self.obj_scope(start, ops, errs, n_con) if in_scope0 else -1
+        offs_written = [any(o["op"] == "write_offsets" for o in ops[:i]) for i in range(len(ops) + 1)]
+        plans, reqs = [], []
+        for i in range(len(ops) + 1):
+            recon = srr and start["cfg"] == 1 and pre[i]["inv"] and not offs_written[i]
+            plan, mreads = read_plan(srr, nl, pre[i]["model"]["elements"], start["cfg"] if recon else 0, False)
+            plans.append(plan)
+            reqs.append(obj_req(kind, start, ops[:i], mreads))
+        reps = ctx.driver.call("c07.heap", runs=reqs)["runs"]
+        model, spec = [], []
+        for i, (rep, plan) in enumerate(zip(reps, plans)):
+            if not rep["valid"] or not all(r.get("pure", True) for r in rep["reads"]):
+                raise InternalError(f"driver: object-level invariant / read purity fails (contradicts the theorems): {case}")
+            if i <= scope and not (rep["inv"] and all(rep["sim"])):
+                raise InternalError(f"driver: invariant / simulation fails inside the property's scope: {case}")
+            handed = any(o["op"] == "add" and o["cal"] is not None and o["cal"].get("obj", n_con) < n_con for o in ops[:i])
+            if i <= scope and not handed and not rep["sep"]:
+                raise InternalError(f"driver: the laser references a construction-time object of the caller: {case}")
+            for j, op in enumerate(ops[:i]):
+                if op["op"] in LASER_OPS and not rep["sim"][j]:
+                    raise InternalError(f"driver: object level and content level disagree on a laser call: {case}")
+            m = dict(rep["model"])
+            m["reads"] = [r.get("items") for r in rep["reads"]]
+            side = canon_side(m, plan, "model", offs=rep["cfg_offs_content"] if srr else None)
+            for label, idx, kw, _, sized in plan:
+                bad = [rep["reads"][k]["raises"] for k in idx if "raises" in rep["reads"][k]]
+                if bad:
+                    side["reads"][label] = {"raises": bad[0]}
+                    side["sizes"].pop(label, None)
+            side["alias"] = model_alias(rep)
+            side["read_shares"] = {label: model_read_shares(rep, rep["reads"][idx[0]])
+                                   for label, idx, kw, _, _ in plan if kw["layer"] is not None}
+            side["err"] = errs[i - 1] if i > 0 else None
+            model.append(side)
+            if i <= scope and rep["spec"] is not None:
+                sp = canon_side(rep["spec"], plan, "spec", offs=0 if srr else None)
+                # identities are not the dictionary's subject: taken over from the object-level model
+                sp["alias"], sp["read_shares"], sp["err"] = side["alias"], side["read_shares"], None
+                spec.append(sp)
+            else:
+                spec.append(side)
+        # the real objects
+        impl = []
+        world = ObjWorld(kind, start, tmp)
+        for i in range(len(ops) + 1):
+            err = world.apply(ops[i - 1]) if i > 0 else None
+            st = world.state()
+            reads, sizes, shares = obj_do_reads(world, plans[i])
+            impl.append({"state": st, "reads": reads, "sizes": sizes, "state_after_reads": world.state(),
+                         "alias": world.alias(), "read_shares": shares, "err": err})
+        # ---- verdicts, step by step
+        # * contents, exceptions, reads: impl == model (and == spec inside the property's scope);
+        # * identities: the implementation may share LESS than the model says (copy more), never more: wherever the
+        #   model says "separate objects / no common memory" the implementation must agree (`alias_le`);
+        # * a call that fails half way (the model leaves a changed state) and an edit outside the property's scope
+        #   (in-place write into array memory / the offsets array, edit of a Calibration handed to add()): every part of
+        #   the state (arrays, calibrations, configuration) is as the model says or as it was before - how much of a
+        #   failing call is undone, and whether such a write reaches the laser at all, is not the property's subject.
+        #   When the implementation did less than the model, the history is not followed further.
+        PARTS = (("elements", "n_elements", "layer_names", "data", "shape"), ("cal", "n_cal"), ("cfg", "offs"))
+        spec_ok = model_ok = True
+        cut = None
+        for i in range(len(impl)):
+            im, mo, sp = impl[i], model[i], spec[i]
+            plain = lambda d: {k: v for k, v in d.items() if k not in ("alias", "read_shares")}
+            lenient = i > 0 and ((errs[i - 1] is not None and not unchanged[i - 1]) or
+                                 (errs[i - 1] is None and ops[i - 1]["op"] not in LASER_OPS and i > scope))
+            if core.canon(plain(im)) == core.canon(plain(mo)):
+                if not (alias_le(im["alias"], mo["alias"]) and shares_le(im["read_shares"], mo["read_shares"])):
+                    if i > 0 and errs[i - 1] is not None and alias_le(im["alias"], model[i - 1]["alias"]):
+                        # a failing call that, in the model, had already moved the data to new memory: the
+                        # implementation raised before doing so
+                        feats.add("lenient:implementation-did-less-than-modelled")
+                        cut = i
+                        break
+                    model_ok = False
+                if sp is not mo and core.canon(plain(im)) != core.canon(plain(sp)):
+                    spec_ok = False
+                feats.add("alias:exactly-as-modelled" if (im["alias"] == mo["alias"] and im["read_shares"] == mo["read_shares"])
+                          else "alias:implementation-shares-less")
+                continue
+            prev = model[i - 1]["state"] if i > 0 else None
+            if lenient and im["err"] == mo["err"] and im["state"] == im["state_after_reads"] and all(
+                    any(all(im["state"][k] == side[k] for k in part) for side in (mo["state"], prev)) for part in PARTS):
+                feats.add("lenient:implementation-did-less-than-modelled")
+                cut = i  # not followed further
+                break
+            model_ok = False
+            if sp is not mo:
+                spec_ok = False
+            else:
+                pass
+        if cut is not None:
+            impl, model, spec = impl[:cut], model[:cut], spec[:cut]
+        if ops and errs[-1] is not None and not unchanged[-1]:
+            feats.add("fail:half-way")
+        for i, op in enumerate(ops):
+            feats |= self.obj_features(op, errs[i], unchanged[i], i < scope, srr)
+        if not in_scope0:
+            feats.add("construct:stray-calibration-key")
+        if start["given"] is not None and len({j for _, j in start["given"]}) < len(start["given"]):
+            feats.add("construct:one-calibration-object-under-two-keys")
+        if any(m["read_shares"].get(l) for m in model for l in m["read_shares"] if isinstance(m["read_shares"][l], list)):
+            feats.add("alias:returned-view-of-stored-data")
+        if any(v for m in model for v in m["alias"]["data_shares"].values()):
+            feats.add("alias:stored-data-is-callers-array")
+        if any(v for m in model for v in m["alias"]["cal_owner"].values()):
+            feats.add("alias:stored-calibration-is-callers-object")
+        if any(m["alias"]["offs_shared"] for m in model):
+            feats.add("alias:config-copy-shares-offsets-array")
+        feats.add(f"len:{'0' if not ops else '1-3' if len(ops) <= 3 else '4-10' if len(ops) <= 10 else '11-25'}")
+        return outcome({"steps": impl}, {"steps": model}, {"steps": spec}, spec_ok=spec_ok, model_ok=model_ok,
+                       hyp=(scope == len(ops)), features=feats,
+                       note=f"{len(ops)} steps, {max(scope, 0)} inside the property's scope")
+
+    @staticmethod
+    def obj_features(op, err, unchanged, in_scope, srr):
+        k = op["op"]
+        f = set()
+        if err is not None:
+            f.add(f"fail:{k}:{err}")
+            f.add("fail:state-unchanged" if unchanged else "fail:state-changed")
+            return f
+        if k == "add":
+            c = op["cal"]
+            f.add("obj:add:" + ("no-calibration" if c is None else "callers-existing-calibration" if "obj" in c else "new-calibration"))
+        elif k in ("remove", "rename", "get"):
+            f.add(f"obj:{k}")
+        elif k in FOREIGN_EDITS:
+            f.add(f"obj:{k}:" + ("construction-object" if in_scope else "object-handed-to-add"))
+        else:
+            f.add(f"obj:{k}:" + ("no-effect-on-laser" if unchanged else "changes-what-the-laser-holds"))
+        return f
+
+    def gen_obj(self, rng, tier):
+        kind = rng.choice(KINDS)
+        srr = kind.startswith("srr")
+        pool = rng.choice([["A", "B", "C", "D", "E", "F"], ["Mg24", "P31", "Fe56", "Fe57", "Zn66", "Gd157"],
+                           ["b", "a", "ab", "B", "a b", "é"]])
+        n0 = rng.choice([1, 2, 2, 3, 3, 4])
+        names = rng.sample(pool, n0)
+        nl = rng.choice([2, 2, 3]) if srr else 1
+        if srr:
+            r = rng.randint(1, 3)
+            if kind == "srr_npz":
+                shape, shape_odd = [r, r + rng.randint(0, 2)], None
+            else:
+                r1 = rng.randint(1, 3)
+                shape, shape_odd = [r, r1 + rng.randint(0, 2)], [r1, r + rng.randint(0, 2)]
+        else:
+            shape, shape_odd = [rng.randint(1, 4), rng.randint(1, 4)], None
+        did, ids = 1, []
+        for _ in range(nl):
+            ids.append([did + 2 * j for j in range(n0)])
+            did += 2 * n0
+        # the caller's Calibration objects: contents 1, 2, ... (sometimes an explicit default one, content 0)
+        ncal = rng.randint(0, n0 + 1)
+        content = list(range(1, ncal + 1))
+        if content and rng.random() < 0.2:
+            content[rng.randrange(ncal)] = 0
+        cid = ncal + 1
+        given = None
+        stray = False
+        if ncal and rng.random() < 0.8:
+            keys = rng.sample(names, rng.randint(0, min(n0, ncal)))
+            if rng.random() < (0.15 if not kind.endswith("_npz") else 0.05):
+                keys.append(rng.choice([n for n in pool if n not in names] + ["Zz"]))
+                stray = True
+            given = [[k, rng.randrange(ncal) if rng.random() < 0.25 else j % ncal] for j, k in enumerate(keys)]
+        elif rng.random() < 0.5:
+            given = []
+        start = {"names": names, "dtypes": [rng.choice(DTYPES) for _ in names], "shape": shape, "ids": ids,
+                 "cal_objs": content, "given": given, "cfg": rng.choice([0, 1, 1])}
+        if shape_odd is not None:
+            start["shape_odd"] = shape_odd
+        # what the caller holds (indices as in ObjWorld / the driver): arrays, calibrations, dicts, configs
+        n_arrs = nl
+        arr_cols = [n0] * nl
+        cal_content = list(content)
+        n_dicts = (1 if given is not None else 0) + (1 if kind.endswith("_npz") else 0)
+        n_cfgs = (1 if start["cfg"] else 0) + (1 if kind.endswith("_npz") else 0)
+        if kind.endswith("_npz"):  # the saved laser's calibrations, one per key of its dict (contents unknown here: never edited in place)
+            nsaved = len(set(names) | {k for k, _ in (given or [])})
+            cal_content += [None] * nsaved
+        offs_tok = [0] * n_cfgs
+        present = list(names)
+        ops = []
+        length = rng.choice([1, 2, 3, 5, 8, 12, 18])
+        for _ in range(length):
+            absent = [n for n in pool if n not in present]
+            choices = ["get", "write_result", "write_result", "write_arr", "fail", "fail"]
+            if absent:
+                choices += ["add"] * 4
+            if present:
+                choices += ["remove"] * 2 + ["rename"] * 4
+            if cal_content:
+                choices += ["edit_cal"] * 2
+            if n_dicts:
+                choices += ["edit_dict"]
+            if n_cfgs:
+                choices += ["edit_cfg"]
+                if srr:
+                    choices += ["set_offsets", "write_offsets"]
+            k = rng.choice(choices)
+            end = False
+            if k == "add":
+                u = rng.random()
+                if u < 0.35:
+                    cal = None
+                elif u < 0.7 or not cal_content:
+                    cal = {"new": cid}
+                    cal_content.append(cid)
+                    cid += 1
+                else:
+                    cal = {"obj": rng.randrange(len(cal_content))}
+                op = {"op": "add", "name": rng.choice(absent), "data": [did + 2 * i for i in range(nl)],
+                      "dtype": rng.choice(DTYPES), "cal": cal}
+                did += 2 * nl
+                n_arrs += nl
+                arr_cols += [1] * nl
+                present = present + [op["name"]]
+            elif k == "remove":
+                m = 1 if rng.random() < 0.5 else rng.randint(1, len(present))
+                if m == len(present) and rng.random() < 0.7 and len(present) > 1:
+                    m -= 1
+                ns = rng.sample(present, m)
+                op = {"op": "remove", "names": ns, "as_str": m == 1 and rng.random() < 0.5}
+                present = [n for n in present if n not in ns]
+            elif k == "rename":
+                mp = self.gen_rename(rng, present, pool)
+                op = {"op": "rename", "map": mp}
+                d = dict(map(tuple, mp))
+                present = [d.get(n, n) for n in present]
+            elif k == "get":
+                op = {"op": "get", "layer": rng.randrange(nl), "target": rng.choice([None] + present) if present else None,
+                      "calibrate": rng.random() < 0.5}
+            elif k == "write_result":
+                op = {"op": "write_result", "layer": rng.randrange(nl),
+                      "target": rng.choice([None] + present * 3) if present else None,
+                      "calibrate": rng.random() < 0.4, "content": did}
+                did += 2
+            elif k == "write_arr":
+                a = rng.randrange(n_arrs)
+                op = {"op": "write_arr", "arr": a, "col": rng.randrange(arr_cols[a]), "content": did}
+                did += 2
+            elif k == "edit_cal":
+                j = rng.randrange(len(cal_content))
+                old = cal_content[j]
+                new = cid if old is None or old == 0 or (cid % 2) == (old % 2) else cid + 1
+                cid = new + 1
+                cal_content[j] = new
+                op = {"op": "edit_cal", "obj": j, "content": new}
+            elif k == "edit_dict":
+                ks = rng.sample(pool + ["Zz"], rng.randint(0, 3))
+                op = {"op": "edit_dict", "obj": rng.randrange(n_dicts),
+                      "entries": [[n, rng.randrange(len(cal_content))] for n in ks] if cal_content else []}
+            elif k == "edit_cfg":
+                op = {"op": "edit_cfg", "obj": rng.randrange(n_cfgs), "content": rng.randint(2, 9)}
+            elif k == "set_offsets":
+                j = rng.randrange(n_cfgs)
+                offs_tok[j] = 2
+                op = {"op": "set_offsets", "obj": j}
+                op["content"] = 2
+            elif k == "write_offsets":
+                cands = [j for j in range(n_cfgs) if offs_tok[j] in (0, 1)]
+                if not cands:
+                    continue
+                j = rng.choice(cands)
+                offs_tok[j] = 1
+                op = {"op": "write_offsets", "obj": j, "content": 1}
+            else:
+                op, end = self.gen_failing(rng, srr, nl, present, absent, start, did)
+                if op is None:
+                    continue
+                did += 2 * nl
+            ops.append(op)
+            if end:
+                break
+        return {"mode": "obj", "kind": kind, "start": start, "ops": ops}
+
+    @staticmethod
+    def gen_failing(rng, srr, nl, present, absent, start, did):
+        """a call that raises; `end`: it may leave a half-edited laser, the history stops there"""
+        kinds = ["add-existing", "add-shape", "remove-absent", "remove-mixed", "remove-twice", "rename-onto-existing",
+                 "rename-same-target", "get-absent"]
+        if srr:
+            kinds += ["add-shape-later-layer", "add-count", "get-layer"]
+        k = rng.choice(kinds)
+        data = [did + 2 * i for i in range(nl)]
+        shapes = [layer_shape(start, li) for li in range(nl)]
+        bad = lambda sh: rng.choice([[sh[0] + 1, sh[1]], [sh[1] + 1, sh[0] + 2], [sh[0] * sh[1]], [1, 1] if sh != [1, 1] else [2, 1]])
+        if k == "add-existing" and present:
+            return {"op": "add", "name": rng.choice(present), "data": data, "dtype": "<f8", "cal": None}, False
+        if k == "add-shape" and absent:
+            shapes[0] = bad(shapes[0])
+            return {"op": "add", "name": rng.choice(absent), "data": data, "dtype": "<f8", "cal": None, "shapes": shapes}, False
+        if k == "add-shape-later-layer" and absent:
+            j = rng.randrange(1, nl)
+            shapes[j] = bad(shapes[j])
+            return {"op": "add", "name": rng.choice(absent + present[:1]), "data": data, "dtype": "<f4", "cal": None,
+                    "shapes": shapes}, True
+        if k == "add-count" and absent:
+            m = rng.choice([1, nl - 1, nl + 1])
+            return {"op": "add", "name": rng.choice(absent), "data": [did + 2 * i for i in range(m)], "dtype": "<f8",
+                    "cal": None, "shapes": [layer_shape(start, li) for li in range(m)]}, False
+        if k == "remove-absent" and absent:
+            return {"op": "remove", "names": rng.sample(absent, rng.randint(1, min(2, len(absent)))),
+                    "as_str": False}, False
+        if k == "remove-mixed" and absent and present:
+            ns = rng.sample(present, rng.randint(1, len(present))) + [rng.choice(absent)]
+            rng.shuffle(ns)
+            return {"op": "remove", "names": ns, "as_str": False}, True
+        if k == "remove-twice" and present:
+            n = rng.choice(present)
+            ns = [n, n] + rng.sample([p for p in present if p != n], rng.randint(0, max(0, len(present) - 1)))
+            rng.shuffle(ns)
+            return {"op": "remove", "names": ns, "as_str": False}, True
+        if k == "rename-onto-existing" and len(present) >= 2:
+            a, b = rng.sample(present, 2)
+            return {"op": "rename", "map": [[a, b]]}, False
+        if k == "rename-same-target" and len(present) >= 2 and absent:
+            a, b = rng.sample(present, 2)
+            return {"op": "rename", "map": [[a, absent[0]], [b, absent[0]]]}, False
+        if k == "get-absent" and absent:
+            return {"op": "get", "layer": rng.randrange(nl), "target": rng.choice(absent), "calibrate": rng.random() < 0.5}, False
+        if k == "get-layer":
+            return {"op": "get", "layer": nl + rng.randint(0, 2), "target": rng.choice([None] + present) if present else None,
+                    "calibrate": False}, False
+        return None, False
+
     # ---- shrinking
     def first_failing_seq(self, case):
         ctx = core.Ctx()
@@ -823,6 +1634,17 @@ class C07(Prop):
                 yield {"mode": "seq", "kind": case["kind"], "start": case["start"], "ops": seq}
             return
         ops, start, kind = case["ops"], case["start"], case["kind"]
+        if case["mode"] == "obj":
+            # any sub-history is a case (the model decides what each call does); object indices must stay in range,
+            # a candidate that does not evaluate is skipped by the shrinker
+            for n in range(1, len(ops)):
+                yield {**case, "ops": ops[:n]}
+            for i in range(len(ops)):
+                if not (ops[i]["op"] == "add" and ops[i]["cal"] is not None and "new" in ops[i]["cal"]):
+                    yield {**case, "ops": ops[:i] + ops[i + 1:]}
+            if kind.endswith("_npz") and not any(o["op"].startswith("edit") or o["op"].endswith("offsets") for o in ops):
+                yield {**case, "kind": kind[:-4]}
+            return
         if len(ops) > 1:  # a prefix (the first failing step is usually early)
             for n in range(1, len(ops)):
                 yield {**case, "ops": ops[:n]}
